@@ -337,3 +337,38 @@ Proof.
     induction HF as [|sw subs' Hsw _ IH]; constructor; [exact (box_tree_idem _ Hsw)|exact IH].
 Qed.
 End Idem.
+
+(* ---------- C09 at float level: bit-exact symmetry of the distance lifts to compounds of any width ---------- *)
+Section Sym.
+Variable acosF : F -> F.
+Definition dist_sym_law (s : space) : Prop := forall x y, distance acosF s x y = distance acosF s y x.
+
+Theorem compound_distance_symmetric : forall subs,
+  Forall (fun sw => dist_sym_law (fst sw)) subs -> dist_sym_law (CS subs).
+Proof.
+  intros subs HF x y. destruct x as [l|v|qx qy qz qw|xs]; destruct y as [l'|v'|qx' qy' qz' qw'|ys]; try reflexivity.
+  cbn [distance].
+  match goal with |- ?g subs xs ys zero = _ =>
+    assert (E : forall subs, Forall (fun sw => dist_sym_law (fst sw)) subs ->
+                forall xs ys acc, g subs xs ys acc = g subs ys xs acc) end.
+  { clear. induction subs as [|[s w] subs IH]; intros HF xs ys acc; [reflexivity|].
+    inversion HF as [|? ? Hs HF']; subst. cbn [fst] in Hs.
+    destruct xs as [|x xs]; destruct ys as [|y ys]; try reflexivity.
+    rewrite (Hs x y). destruct (distance acosF s y x) as [d| |e]; [apply IH; exact HF'|reflexivity|reflexivity]. }
+  apply E; exact HF.
+Qed.
+
+Lemma rv_leaf_sym : forall dim bs frac, dist_sym_law (RV dim bs frac).
+Proof.
+  intros dim bs frac x y. destruct x as [l|v|qx qy qz qw|xs]; destruct y as [l'|v'|qx' qy' qz' qw'|ys]; try reflexivity.
+  cbn [distance]. apply rv_dist_sym.
+Qed.
+
+Fixpoint box_tree_sym (s : space) (H : box_tree s) {struct H} : dist_sym_law s.
+Proof.
+  destruct H as [dim bs frac|subs HF].
+  - apply rv_leaf_sym.
+  - apply compound_distance_symmetric.
+    induction HF as [|sw subs' Hsw _ IH]; constructor; [exact (box_tree_sym _ Hsw)|exact IH].
+Qed.
+End Sym.
